@@ -81,7 +81,11 @@ MCQuick  == CoreFams(LensQ, LensQS, LensDev)
 CoreDevS == UNION {DvC(f, {1}, IF f = "echo" THEN 1 ELSE 0, {"S"}) :
                      f \in {"eth", "vlan", "arp", "ip", "udp", "tcp", "echo", "unreach", "mpls", "ip6", "udp6"}}
 MCThorough == CoreFams(LensT, LensT, LensDev) \cup CoreDevS
-MCExt    == ExtFams(LensDev)
+\* Multipath TCP options (TcpOpts variants 13..32): every option layout, every Data ACK / DSN width combination
+OptCases == U("tcp", {"P"}, {0, 1}, 13..32) \cup U("tcp", {"M"}, {1}, 13..32) \cup U("tcp", {"S"}, {64}, {20, 23, 24})
+            \cup U("tcp6", {"P"}, {1}, {14, 17, 23, 24})
+MCOpt    == OptCases
+MCExt    == ExtFams(LensDev) \cup OptCases
 \* every payload length of an Ethernet frame, odd and even (thorough tier)
 MCSweep  == U("udp", {"P"}, 0..1500, {0}) \cup U("echo", {"M"}, {n \in 0..1500 : n % 7 = 3}, {1})
             \cup U("tcp6", {"P"}, {n \in 0..1500 : n % 11 = 5}, {3}) \cup U("udp6", {"S"}, {n \in 0..1500 : n % 13 = 1}, {0})
